@@ -248,6 +248,13 @@ func (ex *Exec) modelled(st *State, ref string, fn *types.Func, recv *Val, args 
 				return none()
 			}
 		}
+	case "strconv.AppendInt", "strconv.AppendUint", "strconv.AppendFloat", "strconv.AppendBool", "strconv.AppendQuote":
+		// some longer byte slice; no other effect
+		if len(args) >= 1 && args[0].Sh != nil && args[0].Sh.Kind == "slice" {
+			r := ex.freshVal(r0(), "appended")
+			st.assume("(>= " + r.kid("len").S + " " + args[0].kid("len").S + ")")
+			return one(r)
+		}
 	case "cmp.Less":
 		if len(args) == 2 && args[0].Sh != nil && args[0].Sh.IsLeaf() {
 			switch args[0].Sh.Leaf {
@@ -386,6 +393,7 @@ func (ex *Exec) modelled(st *State, ref string, fn *types.Func, recv *Val, args 
 			pf, pinv := ex.eng.smt.fresh("perm", "(Array Int Int)"), ex.eng.smt.fresh("perminv", "(Array Int Int)")
 			st.assume("(forall ((i Int)) (! (=> (and (<= 0 i) (< i " + n + ")) (and (<= 0 (select " + pf + " i)) (< (select " + pf + " i) " + n + ") (= (select " + b + " i) (select " + a + " (select " + pf + " i))))) :pattern ((select " + b + " i))))")
 			st.assume("(forall ((j Int)) (! (=> (and (<= 0 j) (< j " + n + ")) (and (<= 0 (select " + pinv + " j)) (< (select " + pinv + " j) " + n + ") (= (select " + a + " j) (select " + b + " (select " + pinv + " j))))) :pattern ((select " + a + " j))))")
+			st.assume("(forall ((i Int)) (! (=> (and (<= 0 i) (< i " + n + ")) (= (select " + pinv + " (select " + pf + " i)) i)) :pattern ((select " + pf + " i))))")
 			if ref == "sort.Strings" || ref == "slices.Sort" {
 				var le string
 				switch es {
